@@ -486,6 +486,13 @@ def expected_tables(s, cfg):
                 rows.append([ii + 1, ep[ii], aer[op] if op >= 0 else 0.0, hp_[ii], ahr[op] if op >= 0 else 0.0,
                              ar[op] if op >= 0 else 0.0, acf[ii], acc[ii], pcf[ii], pcc[ii]])
             T[T_EXT] = rows
+            # the known F11 defect has a recognisable signature: cy + L - 1 rows, operating-year revenue series indexed by the
+            # row number (i.e. paired with construction-padded prices). Only a table that matches it cell for cell is F11.
+            try:
+                T['__F11_signature__'] = [[ii + 1, ep[ii], aer[ii], hp_[ii], ahr[ii], ar[ii], acf[ii], acc[ii], pcf[ii], pcc[ii]]
+                                          for ii in range(n - 1)]
+            except IndexError:
+                pass
     if cfg['sdac']:
         sd = s.sdacgteconomics
         ca, cc = _a(sd.CarbonExtractedAnnually.value), _a(sd.S_DAC_GTCummCarbonExtracted.value)
@@ -531,13 +538,14 @@ def c09(mon, s, report_text):
     bytitle = {}
     for t in tables:
         bytitle.setdefault(t.title, []).append(t)
+    f11 = ET.pop('__F11_signature__', None)
     for title, rows in ET.items():
         ts = bytitle.get(title)
         if not ts:
             mon.bad('table-present', mechanism='C09/profile-table-missing:' + title, title=title)
             continue
         mon.ok('table-present')
-        _judge_table(mon, title, ts[0], rows, cfg)
+        _judge_table(mon, title, ts[0], rows, cfg, f11 if title == T_EXT else None)
     for title in bytitle:
         if title not in ET:
             mon.note('unmapped-table:' + title)
@@ -567,11 +575,11 @@ def _judge_line(mon, ln, key, exp_v, exp_u):
         if U.norm(pu) == 'percent':
             mon.ok(clause)
         else:
-            mon.bad(clause, mechanism='C09/fraction-printed-as-percent-figure-under-a-non-percent-label', label=key[1],
+            mon.bad(clause, mechanism='C09/fraction-printed-as-percent-figure-under-a-non-percent-label:' + key[1], label=key[1],
                     printed=ln.text, unit=pu, computed=ev)
         return
     if U.norm(pu) != 'percent' and RP.printed_matches(ln.text, ln.decimals, ln.sci, ev * 100.0) and ev != 0.0:
-        mon.bad(clause, mechanism='C09/fraction-printed-as-percent-figure-under-a-non-percent-label', label=key[1],
+        mon.bad(clause, mechanism='C09/fraction-printed-as-percent-figure-under-a-non-percent-label:' + key[1], label=key[1],
                 printed=ln.text, unit=pu, computed=ev, computed_unit=exp_u)
         return
     if U.norm(exp_u or '') == 'percent' and U.norm(pu) == 'percent' and RP.printed_matches(ln.text, ln.decimals, ln.sci, ev * 100.0):
@@ -583,10 +591,24 @@ def _judge_line(mon, ln, key, exp_v, exp_u):
             printed_unit=pu, computed=ev, computed_unit=exp_u, converted=want)
 
 
-def _judge_table(mon, title, t, rows, cfg):
+def _matches(t, rows):
+    if rows is None or len(t.rows) != len(rows):
+        return False
+    for pr, er, pc in zip(t.rows, rows, t.cells):
+        if len(pr) != len(er):
+            return False
+        for ci in range(1, len(er)):
+            dec, sci = RP.decimals_of(pc[ci])
+            if not RP.printed_matches(pc[ci], dec, sci, float(er[ci])):
+                return False
+    return True
+
+
+def _judge_table(mon, title, t, rows, cfg, f11=None):
+    is_f11 = title == T_EXT and _matches(t, f11)
     if len(t.rows) != len(rows):
         mech = 'C09/profile-row-count:' + title
-        if title == T_EXT:
+        if is_f11:
             mech = 'C09/extended-economic-profile-row-count-and-alignment'
         mon.bad('table-rows', mechanism=mech, title=title, printed_rows=len(t.rows), expected_rows=len(rows),
                 cy=cfg['cy'], life=cfg['life'])
@@ -611,7 +633,7 @@ def _judge_table(mon, title, t, rows, cfg):
         if bad:
             break
     mech = 'C09/profile-cell-differs-from-computed:' + title
-    if title == T_EXT and bad:
+    if is_f11 and bad:
         mech = 'C09/extended-economic-profile-row-count-and-alignment'
     mon.check('table-cells', bad is None, mechanism=mech, title=title, detail=bad)
     if bad is None:
